@@ -551,3 +551,18 @@ Definition tree_of_list (l : list (dir * list (positive * file))) : tree :=
 Definition tree_to_list (t : tree) : list (dir * list (positive * file)) :=
   map (fun e => (fst e, map_to_list (snd e))) (map_to_list t).
 Definition content_of_list (l : list (positive * file)) : dcontent := list_to_map l.
+
+(* runs with the concrete supplies; `bound` is above every target name so that temp names never collide *)
+Definition run_gob (f1 f2 : option nat) (kp : nat) (bound : positive) (init : tree) (d : dir) (n : positive) (data : bytes) :=
+  write_gob (plan2 f1 f2) (fresh_name bound) kp d n data (w_init init).
+Definition run_commit (v : variant) (f1 f2 : option nat) (init : tree) (F S : dir) (names : list positive) :=
+  commit_batch (plan2 f1 f2) fresh_child v F S names (w_init init).
+Definition run_collection (f1 f2 : option nat) (kp : nat) (bound : positive) (init : tree) (F : dir) (ms : list member) :=
+  install_collection (plan2 f1 f2) fresh_child (fresh_name bound) kp F (PDir []) ms (w_init init).
+Definition run_fonts (f1 f2 : option nat) (init : tree) (F : dir) (sc : dcontent) (junk : list (positive * dcontent))
+    (stage_ok : bool) (names : list positive) (reload_ok : bool) :=
+  install_fonts (plan2 f1 f2) fresh_child F sc junk stage_ok names reload_ok (w_init init).
+Definition run_cheat (f1 f2 : option nat) (init : tree) (F : dir) (sc : dcontent) (stage_ok : bool) (names : list positive) :=
+  cheat_batch (plan2 f1 f2) fresh_child F sc stage_ok names (w_init init).
+Definition run_certs (f1 f2 : option nat) (bound : positive) (init : tree) (C : dir) (imps : list (positive * bytes * bool)) :=
+  publish_certs (plan2 f1 f2) (fresh_name bound) C imps (w_init init).
